@@ -280,7 +280,7 @@ type ProcRec struct {
 
 // classProgram builds a multi-line program of the given outcome class with the fault at line `at` (1..3 of 4 statements).
 var classFaults = map[string][]string{
-	"lexerr": {"@", "\"abc", "/* open", "1 $ 2;", "/*/ still open", "/* a * / b **"},
+	"lexerr": {"@", "\"abc", "/* open", "1 $ 2;", "/*/", "/* a * / b **"},
 	"synerr": {"PRINT ;", "{", "1 +", ")", "VAR 1 = 2;", "{ PRINT 1;"},
 	"rterr":  {"PRINT 1 / 0;", "zz;", "BREAK;", "nil();"},
 	"clean":  {""},
